@@ -416,6 +416,13 @@ def write_evidence(prop, tier, verif_seed, conf, workers, agg, det, wall, n_viol
                                        ('on_status_overflow', 'on_status_underflow', 'on_status_inaccuracy', 'on_value_change')})
     faults['F7'] = {'what': 'callback that unregisters itself while being notified',
                     'armed': st.get('fault_F7_unregister_armed', 0), 'fired': st.get('fault_F7_unregister_fired', 0)}
+    faults['F8'] = {'what': 'callback that writes to the object it is being notified about, mid-write (C04 only)',
+                    'runs_configured': agg['cfg'].get('configured_F8', 0),
+                    'armed': st.get('fault_F8_armed', 0), 'fired': st.get('fault_F8_fired', 0),
+                    'dropped_not_the_destination': st.get('fault_F8_dropped', 0),
+                    'steps_judged_exactly': st.get('c04_selfwrite_judged', 0),
+                    'fired_by_site': {s: st.get('fault_F8_fired_' + s, 0) for s in
+                                      ('on_status_overflow', 'on_status_underflow', 'on_status_inaccuracy', 'on_value_change')}}
     faults['F5']['template_flips'] = st.get('fault_F5_template_flip', 0)
     faults['F5']['config_template_flips'] = st.get('fault_F5_config_template_flip', 0)
     faults['F6']['caller_config_mutations'] = st.get('fault_F6_caller_config_mutated', 0)
